@@ -143,11 +143,100 @@ def Accepts (s : Bool) : Resp → Bytes → Prop
       btoiI64 L = some (p.length : Int) ∧ TermOk s ch ∧ BulkTermOk s t
   | .arrNil, e => ∃ L ch len, e = tArr :: (L ++ [ch, LF]) ∧ btoiI64 L = some len ∧ len < 0 ∧ TermOk s ch
   | .arr l, e => ∃ L ch body, e = tArr :: (L ++ [ch, LF] ++ body) ∧
-      btoiI64 L = some (l.length : Int) ∧ TermOk s ch ∧ capacityOverflow l.length = false ∧
+      btoiI64 L = some (l.length : Int) ∧ TermOk s ch ∧ reservePanics l.length = false ∧
       AcceptsList s l body
 def AcceptsList (s : Bool) : List Resp → Bytes → Prop
   | [], e => e = []
   | v :: vs, e => ∃ e1 e2, e = e1 ++ e2 ∧ Accepts s v e1 ∧ AcceptsList s vs e2
+end
+
+/-! ## nesting depth -/
+
+/-- an array (nil ones included) may start at nesting depth `d` -/
+def nestAllowed (d : Nat) : Prop := nestingExceeded d = false
+
+mutual
+/-- `NestOk d v`: placed at nesting depth `d`, every array of `v` (nil ones included) sits at a
+depth the parser admits (`depth < MAX_NESTING`; always true when the source has no limit) -/
+def NestOk : Nat → Resp → Prop
+  | d, .arr l => nestAllowed d ∧ NestOkList (d + 1) l
+  | d, .arrNil => nestAllowed d
+  | _, .simple _ => True
+  | _, .error _ => True
+  | _, .integer _ => True
+  | _, .bulk _ => True
+  | _, .bulkNil => True
+def NestOkList : Nat → List Resp → Prop
+  | _, [] => True
+  | d, v :: vs => NestOk d v ∧ NestOkList d vs
+end
+
+mutual
+/-- number of array levels of a value (a nil array counts as one level) -/
+def nesting : Resp → Nat
+  | .arr l => 1 + nestingList l
+  | .arrNil => 1
+  | .simple _ => 0
+  | .error _ => 0
+  | .integer _ => 0
+  | .bulk _ => 0
+  | .bulkNil => 0
+def nestingList : List Resp → Nat
+  | [] => 0
+  | v :: vs => max (nesting v) (nestingList vs)
+end
+
+theorem nestAllowed_iff (m : Nat) (hm : maxNesting = some m) (d : Nat) : nestAllowed d ↔ d < m := by
+  simp only [nestAllowed, nestingExceeded, hm]
+  simp
+
+mutual
+/-- with a limit `m`: `NestOk d v` iff `v` has no array at all or `d + nesting v ≤ m` -/
+theorem nestOk_iff (m : Nat) (hm : maxNesting = some m) : ∀ (v : Resp) (d : Nat),
+    NestOk d v ↔ (nesting v = 0 ∨ d + nesting v ≤ m)
+  | .arr l, d => by
+    have h := nestOkList_iff m hm l (d + 1)
+    simp only [NestOk, nesting, nestAllowed_iff m hm, h]
+    omega
+  | .arrNil, d => by simp only [NestOk, nesting, nestAllowed_iff m hm]; omega
+  | .simple _, d => by simp [NestOk, nesting]
+  | .error _, d => by simp [NestOk, nesting]
+  | .integer _, d => by simp [NestOk, nesting]
+  | .bulk _, d => by simp [NestOk, nesting]
+  | .bulkNil, d => by simp [NestOk, nesting]
+theorem nestOkList_iff (m : Nat) (hm : maxNesting = some m) : ∀ (l : List Resp) (d : Nat),
+    NestOkList d l ↔ (nestingList l = 0 ∨ d + nestingList l ≤ m)
+  | [], d => by simp [NestOkList, nestingList]
+  | v :: vs, d => by
+    have h1 := nestOk_iff m hm v d
+    have h2 := nestOkList_iff m hm vs d
+    simp only [NestOkList, nestingList, h1, h2]
+    rcases Nat.le_total (nesting v) (nestingList vs) with h | h
+    · rw [Nat.max_eq_right h]; omega
+    · rw [Nat.max_eq_left h]; omega
+end
+
+/-- at the top level: all arrays admitted iff at most `MAX_NESTING` array levels -/
+theorem nestOk_zero_iff (m : Nat) (hm : maxNesting = some m) (v : Resp) : NestOk 0 v ↔ nesting v ≤ m := by
+  rw [nestOk_iff m hm]; omega
+
+mutual
+/-- without a limit every value is admitted -/
+theorem nestOk_of_unbounded (hm : maxNesting = none) : ∀ (v : Resp) (d : Nat), NestOk d v
+  | .arr l, d => by
+    simp only [NestOk, nestAllowed, nestingExceeded, hm]
+    exact ⟨trivial, nestOkList_of_unbounded hm l (d + 1)⟩
+  | .arrNil, d => by simp [NestOk, nestAllowed, nestingExceeded, hm]
+  | .simple _, d => by simp [NestOk]
+  | .error _, d => by simp [NestOk]
+  | .integer _, d => by simp [NestOk]
+  | .bulk _, d => by simp [NestOk]
+  | .bulkNil, d => by simp [NestOk]
+theorem nestOkList_of_unbounded (hm : maxNesting = none) : ∀ (l : List Resp) (d : Nat), NestOkList d l
+  | [], d => by simp [NestOkList]
+  | v :: vs, d => by
+    simp only [NestOkList]
+    exact ⟨nestOk_of_unbounded hm v d, nestOkList_of_unbounded hm vs d⟩
 end
 
 /-! ## digits contain no LF -/
